@@ -259,8 +259,39 @@ def tasks(tier, seed):
     return _tasks(tier, seed) + e3.prepare(tier)
 
 
+def run_maxlen(acc):
+    """the 1 MiB framing boundary: a reply line of exactly MAX_LENGTH bytes is accepted, one byte more drops the connection"""
+    from txtorcon.torcontrolprotocol import TorControlProtocol
+    M = TorControlProtocol.MAX_LENGTH
+    for extra, chunked in ((0, False), (0, True), (1, False), (1, True)):
+        with World() as w:
+            ctl = Ctl(w)
+            s = ctl.submit('P')
+            body = 'x' * (M - 4 + extra)
+            data = ('250-' + body + '\r\n250 OK\r\n').encode('ascii')
+            if chunked:
+                for i in range(0, len(data), 65536):
+                    if ctl.wire.disconnecting:
+                        break
+                    ctl.wire.deliver(data[i:i + 65536])
+            else:
+                ctl.wire.deliver(data)
+            viol = None
+            if extra == 0:
+                if ctl.wire.disconnecting or len(s.rec.fires) != 1 or s.rec.kind != 'ok' or s.rec.value != body:
+                    viol = ('maxlen-line-not-accepted', 'exactly-MAX_LENGTH', 'a %d-byte line: disconnecting=%r fired=%d' % (M, ctl.wire.disconnecting, len(s.rec.fires)))
+            else:
+                if not ctl.wire.disconnecting:
+                    viol = ('overlong-line-accepted', 'MAX_LENGTH+1', 'a %d-byte line did not drop the connection' % (M + 1))
+                elif s.rec.fires and s.rec.kind == 'ok':
+                    viol = ('overlong-line-accepted', 'resolved', 'command resolved from an over-long line')
+            acc.execution(key=('maxlen', extra, chunked), outcome='maxlen:%s' % ('accepted' if not ctl.wire.disconnecting else 'dropped'), nontrivial=True, steps=2)
+            if viol:
+                acc.violation('%s/%s' % (viol[0], viol[1]), viol[2], dict(maxlen=True), cost=1)
+
+
 def _tasks(tier, seed):
-    out = []
+    out = [('maxlen',)]
     # segment tasks: (kind, shape, ctx)
     for kind in KINDS:
         for shape in SEG_SHAPES:
@@ -301,6 +332,8 @@ def reduced_scheds(n):
 def run_task(param, acc):
     if param[0] in ('e3', 'e3-tlc-failed'):
         return e3.run(param, acc)
+    if param[0] == 'maxlen':
+        return run_maxlen(acc)
     if param[0] == 'seg':
         return run_seg(param, acc)
     _, prefix, n, mode = param
@@ -403,6 +436,11 @@ def run_prefix(cmds, sched, cuts, upto):
 def replay(p):
     if p.get('e3'):
         return e3.replay(p)
+    if p.get('maxlen'):
+        from mc.runner import Acc
+        a = Acc()
+        run_maxlen(a)
+        return dict(violations=[dict(signature=sig, what=v['what']) for sig, v in a.violations.items()], log=['1 MiB boundary'])
     cmds = tuple(tuple(c) for c in p['cmds'])
     cuts = tuple(p['cuts']) if p.get('cuts') is not None else None
     r = run_sequence(cmds, tuple(p['sched']), p['gran'], cuts)
